@@ -7,6 +7,7 @@
 // changes, attacker edits of stored credentials and of the first client flight) runs against the real library; a model
 // records every issued id / ticket / TLS 1.3 PSK identity with its secret and parameters and judges every attempt.
 #include "mxh.h"
+#include <set>
 #include <array>
 using namespace vf; using namespace mxh;
 
@@ -51,7 +52,11 @@ struct Cred {
     bool invalidated = false; int key_uid = -1; void *psk_snap = nullptr; int owner = -1;
     bool established = true;   // false: the id was handed out in a ServerHello but the server has not (yet) verified the client's Finished of that handshake
 };
-struct TKey { std::array<uint8_t, 16> name; uint8_t sym[32], mac[32]; int symlen; int uid; };
+struct TKey { std::array<uint8_t, 16> name; uint8_t sym[32], mac[32]; int symlen; int uid; bool refused = false; };
+// The application's session-ticket callback (matrixSslSetSessionTicketCallback): asked before a ticket key is used to open an RFC 5077
+// ticket; a negative answer means "do not use this key".  It knows no keys of its own; names in g_refused are the ones it has retired.
+std::set<std::string> g_refused;
+int32 ticket_cb(void *, unsigned char name[16], short found) { if (g_refused.count(std::string((const char *) name, 16))) return PS_FAILURE; return found ? PS_SUCCESS : PS_FAILURE; }
 struct Server { sslKeys_t *keys = nullptr; std::vector<TKey> tk; };
 struct Client { sslSessionId_t *sid = nullptr; int cred = -1; bool dirty = false; };
 struct Live { std::unique_ptr<Pair> p; int cred; int client; bool tls13; };
@@ -83,6 +88,7 @@ struct World {
 int64_t now_ms() { return vfh_clock_get_ms(); }
 
 bool has_key(const Server &s, int uid) { for (auto &k : s.tk) if (k.uid == uid) return true; return false; }
+bool key_refused(const Server &s, int uid) { for (auto &k : s.tk) if (k.uid == uid) return k.refused; return false; }
 
 TKey make_key(World &w, Tape &t, const std::array<uint8_t, 16> *force_name = nullptr) {
     TKey k; k.uid = w.next_uid++;
@@ -254,6 +260,7 @@ std::string why_not(const World &w, const Cred &cr, const Hello &h) {
     if (cr.issuer != 0) return "resumed-with-foreign-ticket" + k;
     if (!cr.established) return "resumed-unestablished-session";
     if (cr.kind != CK_ID && !has_key(w.A, cr.key_uid)) return "resumed-with-removed-ticket-key" + k;
+    if (cr.kind == CK_TICKET && key_refused(w.A, cr.key_uid)) return "resumed-with-ticket-key-refused-by-callback" + k;
     if (expired(cr, 1000)) return "resumed-expired" + k;
     if (cr.kind == CK_ID && cr.invalidated) return "resumed-after-fatal-alert";
     if (h.ver != cr.ver) return "resumed-version-mismatch" + k;
@@ -334,6 +341,7 @@ void nontrivial_after(World &w, const std::string &kind, int outcome) {
 } // namespace
 
 static void prop(Tape &t, Ctx &c) {
+    g_refused.clear();
     matrixSslClose(); matrixSslOpen();   // empty process-global session cache
     vfh_entropy_reset(14000 + t.u16()); vfh_clock_set_ms(1000000);
     World w(c);
@@ -632,8 +640,15 @@ static void prop(Tape &t, Ctx &c) {
             w.note(fmt("Flood(%zu,%s)", n, keep ? "kept-open" : "closed")); c.count(n >= 32 ? "cmd:flood>=32" : "cmd:flood<32");
             if (t.chance(1, 3)) { w.flood_open.clear(); w.note("FloodClose"); }
         } else {                                          // ---- ticket keys of server A
-            unsigned e = (unsigned) t.below(4);
-            if (e == 0 || w.A.tk.empty()) { if (w.A.tk.size() < 6) { if (!load_key(w.A, make_key(w, t))) throw Discard{}; w.note("AddKey"); c.count("cmd:key-add"); } }
+            unsigned e = (unsigned) t.below(5);
+            if (e == 4 && !w.A.tk.empty()) {           // the application retires a key through its session-ticket callback; the key stays loaded
+                size_t i = t.below(w.A.tk.size()); w.A.tk[i].refused = true; g_refused.insert(std::string((const char *) w.A.tk[i].name.data(), 16));
+                matrixSslSetSessionTicketCallback(w.A.keys, ticket_cb);
+                for (auto &cr : w.creds) if (cr.kind == CK_TICKET && cr.issuer == 0 && cr.key_uid == w.A.tk[i].uid) w.pre_keyrm = true;
+                w.note(fmt("RetireKeyViaCallback(#%d)", w.A.tk[i].uid)); c.count("cmd:key-retire-via-callback");
+            }
+            else if (e == 4) { }
+            else if (e == 0 || w.A.tk.empty()) { if (w.A.tk.size() < 6) { if (!load_key(w.A, make_key(w, t))) throw Discard{}; w.note("AddKey"); c.count("cmd:key-add"); } }
             else {
                 if (e == 3) { if (!load_key(w.A, make_key(w, t))) throw Discard{}; }
                 size_t i = (e == 2) ? w.A.tk.size() - 1 : 0; if (e == 3) i = 0;
